@@ -157,6 +157,8 @@ class C13(Prop):
         prev_w = []
         prev = None
         for lab, s in obs:
+            if lab[0] == 'Start' and target <= 0 and lab[1] not in s['refused']:
+                return f'entry under a limit of {target} was not refused with ExcessiveSessionCostError'
             if lab[0] == 'Exit' and prev is not None and ok_targets:
                 if prev['semv'] > target:
                     if s['semv'] != prev['semv'] - 1:
